@@ -40,10 +40,12 @@ def rand_span(rng, pool):
 _ESC = "\n\t\r%;=&,"
 
 
-def esc(v):
+def esc(v, raw_eq=False):
     out = []
     for ch in v:
-        if ch in _ESC or ord(ch) < 32 or ord(ch) == 127:
+        if raw_eq and ch == "=":
+            out.append(ch)  # files in the wild write '=' inside a value unescaped (Note=identity=99.5)
+        elif ch in _ESC or ord(ch) < 32 or ord(ch) == 127:
             out.append("%%%02X" % ord(ch))
         else:
             out.append(ch)
@@ -60,9 +62,9 @@ def render_attrs(attrs, d):
         for k, vals in attrs:
             if d.get("repeat") and len(vals) > 1:
                 for v in vals:
-                    parts.append("%s=%s" % (k, esc(v)))
+                    parts.append("%s=%s" % (k, esc(v, d.get("raw_eq"))))
             elif vals:
-                parts.append("%s=%s" % (k, ",".join(esc(v) for v in vals)))
+                parts.append("%s=%s" % (k, ",".join(esc(v, d.get("raw_eq")) for v in vals)))
             else:
                 parts.append(k)
     else:  # gtf / gff2: key "value"
@@ -188,14 +190,15 @@ def gtf_annotation(rng, cfg=None):
     gk = cfg.get("gene_key", "gene_id")
     feats = []
     tcount = 0
+    idfmt = "%s;%d" if cfg.get("odd_ids") else "%s%d"  # quoted GTF ids may contain a semicolon
     for gi in range(n_genes):
-        g = "G%d" % (gi + 1)
+        g = idfmt % ("G", gi + 1)
         seqid = rng.choice(cfg.get("seqids", ["chr1", "chr2"]))
         strand = rng.choice(["+", "-"])
         glines = []
         for ti in range(rng.randint(1, cfg.get("max_tx", 2))):
             tcount += 1
-            t = "T%d" % tcount
+            t = idfmt % ("T", tcount)
             n_ex = rng.choice(cfg.get("n_exons", [0, 1, 1, 2, 3]))
             spans = []
             for _ in range(n_ex):
@@ -226,6 +229,17 @@ def gtf_annotation(rng, cfg=None):
         if cfg.get("shuffle_within"):
             rng.shuffle(glines)
         feats.extend(glines)
+    if cfg.get("tx_two_genes") and n_genes >= 2:
+        # one transcript id used under two gene ids (trans-spliced / readthrough records): it is a child of both genes
+        src = [f for f in feats if f["cols"][2] == sub]
+        if src:
+            e0 = rng.choice(src)
+            g0 = [v for k, v in e0["attrs"] if k == gk][0][0]
+            t0 = [v for k, v in e0["attrs"] if k == tk][0][0]
+            others = sorted(set(v[0] for f in feats for k, v in f["attrs"] if k == gk and v[0] != g0))
+            if others:
+                s, e = rand_span(rng, pool)
+                feats.append(mf([e0["cols"][0], "src", sub, s, e, ".", e0["cols"][6], "."], [[gk, [rng.choice(others)]], [tk, [t0]]]))
     if cfg.get("shuffle"):
         rng.shuffle(feats)
     return feats
